@@ -814,6 +814,11 @@ func (d *Decoder) decodeSliceTo(v reflect.Value) error {
 		return err
 	}
 
+	if v.Kind() == reflect.Slice && v.IsNil() {
+		// An empty list is an empty slice, not a nil one (nil is what null decodes to).
+		v.Set(reflect.MakeSlice(v.Type(), 0, 0))
+	}
+
 	if i < v.Len() {
 		if v.Kind() == reflect.Array {
 			// Zero out any additional values.
